@@ -23,7 +23,7 @@ import (
 const addrA, addrB = "127.0.0.1:1001", "127.0.0.1:1002"
 
 type params struct {
-	fault string // cut | refuse | restart | badframe
+	fault string // cut | refuse | restart | badframe | first-contact (two senders use the peer for the first time at once; the first j dials are refused)
 	j     int    // cut offset / number of refused dials / bad frame kind
 	j2    int    // second fault: cut offset on the second connection (-1 none)
 	limit int    // reconnect limit
@@ -39,6 +39,9 @@ func msg(id string) *vcodec.CustomMsg { return &vcodec.CustomMsg{N: 7, T: id} }
 func scenario(p params, bounds []int) *vexp.Scenario {
 	cfg := vsys.CoarseSends(400000)
 	cfg.SwitchOnNet = true
+	if p.fault == "first-contact" {
+		cfg.FinePkgs = []string{"vivid/internal/remoting."} // the lazily built per-address mailbox / connection is shared by the two senders
+	}
 	return &vexp.Scenario{
 		Name:   p.name(),
 		Family: p.fault,
@@ -58,7 +61,7 @@ func scenario(p params, bounds []int) *vexp.Scenario {
 					}
 					return -1
 				}
-			case "refuse":
+			case "refuse", "first-contact":
 				nw.Refuse = func(addr string, idx int) bool { return addr == addrB && idx < p.j }
 			}
 			remoting := func(bind string) vivid.ActorSystemOption {
@@ -105,6 +108,16 @@ func scenario(p params, bounds []int) *vexp.Scenario {
 					processedWhileRetrying++
 				}
 			}})
+			var sent2 []string
+			wa.SpawnRoot(&vsys.Script{Name: "s2", OnMsg: func(a *vsys.Act, ctx vivid.ActorContext, m vsys.Msg) {
+				if m.ID == "go" {
+					for i := 0; i < p.n; i++ {
+						id := fmt.Sprintf("x%d", len(sent2)+1)
+						sent2 = append(sent2, id)
+						ctx.Tell(echoB, msg(id))
+					}
+				}
+			}})
 			vrt.QuiesceNoTimers()
 			settle := func() {
 				vrt.SetHorizon(vrt.Now() + int64(2*time.Minute))
@@ -113,6 +126,10 @@ func scenario(p params, bounds []int) *vexp.Scenario {
 			}
 			s1 := wa.Ref("/s1")
 			switch p.fault {
+			case "first-contact":
+				wa.Sys.Tell(s1, vsys.Msg{ID: "go"})
+				wa.Sys.Tell(wa.Ref("/s2"), vsys.Msg{ID: "go"})
+				settle()
 			case "cut", "refuse":
 				wa.Sys.Tell(s1, vsys.Msg{ID: "go"})
 				wa.Sys.Tell(s1, vsys.Msg{ID: "probe"})
@@ -190,35 +207,48 @@ func scenario(p params, bounds []int) *vexp.Scenario {
 			}
 			// ---------------- oracle ----------------
 			// what B received is a subsequence of what was sent: intact, no duplicate, in order
-			pos := 0
 			seen := map[string]bool{}
-			for _, g := range atB {
-				if seen[g] {
-					x.Fail("never-duplicated", "B received %s twice (received %v)", g, atB)
+			all := atB
+			for _, sender := range []struct {
+				prefix string
+				sent   []string
+			}{{"x", sent2}, {"", sent}} {
+				sent := sender.sent
+				var atB []string
+				for _, g := range all {
+					if strings.HasPrefix(g, "x") == (sender.prefix == "x") {
+						atB = append(atB, g)
+					}
 				}
-				seen[g] = true
-				found := false
-				for pos < len(sent) {
-					if sent[pos] == g {
-						found = true
+				pos := 0
+				for _, g := range atB {
+					if seen[g] {
+						x.Fail("never-duplicated", "B received %s twice (received %v)", g, atB)
+					}
+					seen[g] = true
+					found := false
+					for pos < len(sent) {
+						if sent[pos] == g {
+							found = true
+							pos++
+							break
+						}
 						pos++
+					}
+					if !found {
+						known := false
+						for _, s := range sent {
+							if s == g {
+								known = true
+							}
+						}
+						if known {
+							x.Fail("never-reordered", "B received %v, not a subsequence of what was sent %v", atB, sent)
+						} else {
+							x.Fail("never-corrupted", "B received %q, which was never sent (sent %v)", g, sent)
+						}
 						break
 					}
-					pos++
-				}
-				if !found {
-					known := false
-					for _, s := range sent {
-						if s == g {
-							known = true
-						}
-					}
-					if known {
-						x.Fail("never-reordered", "B received %v, not a subsequence of what was sent %v", atB, sent)
-					} else {
-						x.Fail("never-corrupted", "B received %q, which was never sent (sent %v)", g, sent)
-					}
-					break
 				}
 			}
 			// dead letters on the sending side
@@ -288,6 +318,7 @@ func scenario(p params, bounds []int) *vexp.Scenario {
 			}
 			x.Outcome(fmt.Sprintf("%v|dead=%v", atB, dead))
 			x.Logf("sent %v received %v dead %v parked %v net %v", sent, atB, dead, parked, nw.Log)
+			vrt.Freeze()
 			wa.Sys.Stop()
 			wb.Sys.Stop()
 			settle()
@@ -327,6 +358,10 @@ func build(tier string) []*vexp.Scenario {
 		for _, limit := range []int{0, 1, 3} {
 			out = append(out, scenario(params{"restart", k, -1, limit, 2}, b))
 		}
+	}
+	for j := 0; j <= 1; j++ {
+		j := j
+		out = append(out, vexp.Split(8, func() *vexp.Scenario { return scenario(params{"first-contact", j, -1, 1, 2}, []int{0, 1, 2}) })...)
 	}
 	for kind := 0; kind <= 3; kind++ {
 		out = append(out, scenario(params{"badframe", kind, -1, 1, 0}, []int{0, 1}))
